@@ -780,6 +780,7 @@ func runC20(c *Ctx) {
 	runC20Round4(c)
 	runC20FatalDrain(c)
 	runC20Round5(c)
+	runC20Signals(c)
 }
 
 func constantInt64(c *types.Const) (int64, bool) {
